@@ -43,6 +43,18 @@ func namesFor(c *mon.Case, d dirCase) []string {
 		return gen.SharedPrefixNames(r, d.N, d.Shared)
 	case "collide64":
 		return gen.CollidingNames(r, d.N)
+	case "alias":
+		// members whose 64-bit hash equals that of one of their own proper
+		// suffixes / prefixes, so a lookup of that non-member walks the very
+		// same bucket chain down to the member's value link
+		var out []string
+		for i := 0; len(out) < d.N; i++ {
+			suf := []byte(fmt.Sprintf(".t%d.gz", i))
+			out = append(out, gen.CraftAround(nil, suf, oracle.Hash64(string(suf)), r.Uint64()))
+			pre := []byte(fmt.Sprintf("prefix-alia-%04d", i))
+			out = append(out, gen.CraftAround(pre, nil, oracle.Hash64(string(pre)), r.Uint64()))
+		}
+		return out[:d.N]
 	case "crafted+filler":
 		ns := gen.SharedPrefixNames(r, d.N, d.Shared)
 		return append(ns, gen.Names(r, gen.FamASCII, 40)...)
@@ -121,6 +133,7 @@ func dirCases(r *mon.Run) []dirCase {
 				}
 			}
 		}
+		out = append(out, dirCase{"sharded", f, "alias", 24, 0})
 		lg := bits.TrailingZeros(uint(f))
 		// crafted sets: force every depth up to the last usable level
 		for s := lg; s < 64; s += lg {
@@ -287,6 +300,11 @@ func TestC02(t *testing.T) {
 						mask = ^uint64(0)
 					}
 					extra = append(extra, gen.Craft16(h&mask|rr.Uint64()&^mask, rr.Uint64()))
+				}
+			}
+			for _, m := range names {
+				if len(m) > 16 {
+					extra = append(extra, m[16:], m[:16]) // proper suffix / prefix of a member
 				}
 			}
 			checkDirAsMap(c, "C02", node, model, extra, pads, 3000)
